@@ -38,7 +38,7 @@
  */
 #include "inverse_power_coulomb_bounding_potential.h" // Include declarations.
 
-#include <math.h> // For fabs, floor, fmod, pow, sqrt.
+#include <math.h> // For fabs, floor, fmax, fmod, pow, sqrt.
 
 
 /** @brief Compute the space derivative of the inverse power coulomb bounding potential along the positive x direction
@@ -118,7 +118,8 @@ double displacement(double prefactor_product, double sx, double sy, double sz, d
         }
         // Compute how much active unit can travel uphill with the given potential change.
         new_norm = prefactor_product / (current_potential + potential_change);
-        displacement += (sx - sqrt(new_norm * new_norm - (sy * sy + sz * sz)));
+        // Rounding errors may make the radicand or the last (non-negative) increment slightly negative.
+        displacement += fmax(0.0, sx - sqrt(fmax(0.0, new_norm * new_norm - (sy * sy + sz * sz))));
     } else {
         // Attractive interaction
         if (sx > 0.0) {
@@ -137,7 +138,8 @@ double displacement(double prefactor_product, double sx, double sy, double sz, d
             }
         }
         new_norm = prefactor_product / (current_potential + potential_change);
-        displacement += (sx + sqrt(new_norm * new_norm - (sy * sy + sz * sz)));
+        // Rounding errors may make the radicand or the last (non-negative) increment slightly negative.
+        displacement += fmax(0.0, sx + sqrt(fmax(0.0, new_norm * new_norm - (sy * sy + sz * sz))));
     }
     return displacement;
 }
